@@ -207,7 +207,9 @@ def configurator_spec(draw, min_items=3, max_items=7, max_rules=4, explicit_p=60
 
     def new_id():
         counter[0] += 1
-        return ("R%d" % counter[0]) if draw(st.integers(0, 99)) < explicit_p else None
+        if draw(st.integers(0, 99)) >= explicit_p:
+            return None
+        return ("VARIANT%d" % counter[0]) if draw(st.integers(0, 11)) == 0 else ("R%d" % counter[0])
 
     def leaf(i):
         l = {"k": "leaf", "id": i, "b": [0, 1]}
